@@ -311,3 +311,78 @@ func (m *Machine) sendError(timeout bool) Value {
 	*c = st
 	return Iface{T: types.NewPointer(opT), V: c}
 }
+
+// ---- dialing: net.ResolveUDPAddr / net.DialUDP against a named sink -------------
+
+func init() {
+	I := intrinsics
+	I[rtPkg+"NewUDPSink"] = func(th *Thread, fn *ssa.Function, args []Value) Value {
+		m := th.m
+		m.sinkCount++
+		return Str{C: fmt.Sprintf("127.0.0.1:%d", 40000+m.sinkCount)}
+	}
+	I["net.ResolveUDPAddr"] = func(th *Thread, fn *ssa.Function, args []Value) Value {
+		m := th.m
+		addr := concreteStr(m, args[1], "UDP address")
+		pt := fn.Signature.Results().At(0).Type()
+		cell := new(Value)
+		st := m.zero(deref(pt)).(Struct)
+		ut := deref(pt).Underlying().(*types.Struct)
+		for i := 0; i < ut.NumFields(); i++ {
+			if ut.Field(i).Name() == "Zone" {
+				st[i] = Str{C: addr}
+			}
+		}
+		*cell = st
+		return Tuple{cell, Iface{}}
+	}
+	I["net.DialUDP"] = func(th *Thread, fn *ssa.Function, args []Value) Value {
+		m := th.m
+		raddr := args[2].(*Value)
+		name := ""
+		if raddr != nil {
+			ut := deref(fn.Signature.Params().At(2).Type()).Underlying().(*types.Struct)
+			for i := 0; i < ut.NumFields(); i++ {
+				if ut.Field(i).Name() == "Zone" {
+					name = (*raddr).(Struct)[i].(Str).C
+				}
+			}
+		}
+		cell := new(Value)
+		*cell = m.zero(deref(fn.Signature.Results().At(0).Type()))
+		st := m.udp(cell)
+		if m.sinks == nil {
+			m.sinks = map[string][]*udpState{}
+		}
+		m.sinks[name] = append(m.sinks[name], st)
+		return Tuple{cell, Iface{}}
+	}
+	sinkOf := func(th *Thread, v Value) *udpState {
+		m := th.m
+		name := concreteStr(m, v, "sink address")
+		l := m.sinks[name]
+		if len(l) == 0 {
+			return &udpState{}
+		}
+		if len(l) > 1 {
+			m.unsupported("several connections to one sink")
+		}
+		return l[0]
+	}
+	I[rtPkg+"SinkDatagrams"] = func(th *Thread, fn *ssa.Function, args []Value) Value {
+		return th.m.ts.Const(64, uint64(len(sinkOf(th, args[0]).datagrams)))
+	}
+	I[rtPkg+"SinkDatagram"] = func(th *Thread, fn *ssa.Function, args []Value) Value {
+		st := sinkOf(th, args[0])
+		i := int(th.m.asInt(args[1]))
+		if i < 0 || i >= len(st.datagrams) {
+			th.rtPanic("verifrt.SinkDatagram index out of range")
+		}
+		return st.datagrams[i]
+	}
+	I[rtPkg+"SinkFault"] = func(th *Thread, fn *ssa.Function, args []Value) Value {
+		c := args[1].(*Term)
+		sinkOf(th, args[0]).failNext = c.IsConst() && c.Val == 1
+		return nil
+	}
+}
